@@ -452,6 +452,17 @@ Example C13_writers_are_source_inhabited :
   computeCRC32 (firstn 29 (skipn 1 (bytes_of_items (map snd (fst (gwritePSIData ex_psi)))))) = 0.
 Proof. exact psi_writer_runs. Qed.
 
+(* calcPMTProgramInfoLength (data_pmt.go; no caller inside the package) is regenerated as well: the section length every PMT
+   theorem above uses is its value plus the two bytes in front of program_info_length, in the uint16 arithmetic of the source.
+   A changed constant or a dropped summand in either calculator breaks this proof. *)
+Theorem C13_program_info_length_is_source : forall d,
+  calc_pmt_section_length d = (gcalcPMTProgramInfoLength d + 2) mod 65536.
+Proof. exact pmt_program_info_length_is_source. Qed.
+Print Assumptions C13_program_info_length_is_source.
+Example C13_program_info_length_is_source_inhabited :
+  gcalcPMTProgramInfoLength ex_pmt = 15 /\ calc_pmt_section_length ex_pmt = 17.
+Proof. split; vm_compute; reflexivity. Qed.
+
 (* PSIData.toData is regenerated too (Gen/RestData.v: go/gen/restgen.go through the statement translator of
    go/gen/demuxgen.go, in the outcome monad).  On every PSIData whose sections with syntax data have a header — every one the
    parser builds — the regenerated function returns exactly psi_to_data, the subject of C13_to_data / C13_to_data_order:
